@@ -164,7 +164,7 @@ def include_flags(root, fixed, cfgdir):
 
 
 def prune_cache(keep_tree):
-    """Keep build trees for the current tree hash and the 2 most recent others."""
+    """Keep build trees for the current tree hash, the 4 most recent others and anything used in the last 90 min."""
     if not os.path.isdir(CACHE):
         return
     ents = []
@@ -173,8 +173,9 @@ def prune_cache(keep_tree):
         if d.startswith('t-') and os.path.isdir(p) and d != 't-' + keep_tree:
             ents.append((os.path.getmtime(p), p))
     ents.sort(reverse=True)
-    for _, p in ents[2:]:
-        shutil.rmtree(p, ignore_errors=True)
+    for mt, p in ents[4:]:
+        if time.time() - mt > 5400:      # never remove a tree another (parallel) run may still be using
+            shutil.rmtree(p, ignore_errors=True)
 
 
 def build_lib(flavour, th=None):
